@@ -185,6 +185,51 @@ pub trait Obj {
     fn drop_image(self: Box<Self>) -> Vec<u8>;
 }
 
+/// A caller-written keystream closure for `StreamCipherCore::process_with_backend` (a public entry point): it asks the
+/// backend for ONE block first, then for whole parallel batches, then for a tail and a last single block - an order
+/// the provided methods of the `cipher` crate never use (they always start with the batches).
+struct MixKs<'a, BS: cipher::crypto_common::BlockSizes> {
+    out: &'a mut [Array<u8, BS>],
+}
+impl<BS: cipher::crypto_common::BlockSizes> BlockSizeUser for MixKs<'_, BS> {
+    type BlockSize = BS;
+}
+impl<BS: cipher::crypto_common::BlockSizes> cipher::StreamCipherClosure for MixKs<'_, BS> {
+    fn call<B: cipher::StreamCipherBackend<BlockSize = BS>>(self, backend: &mut B) {
+        let pw = B::ParBlocksSize::USIZE;
+        let out = self.out;
+        if out.is_empty() {
+            return;
+        }
+        if pw <= 1 {
+            for b in out.iter_mut() {
+                backend.gen_ks_block(b);
+            }
+            return;
+        }
+        let (first, rest) = out.split_at_mut(1);
+        backend.gen_ks_block(&mut first[0]);
+        let mut i = 0;
+        while rest.len() - i >= pw {
+            let mut t: cipher::ParBlocks<B> = Default::default();
+            backend.gen_par_ks_blocks(&mut t);
+            for (k, b) in t.iter().enumerate() {
+                rest[i + k] = b.clone();
+            }
+            i += pw;
+        }
+        let tail = &mut rest[i..];
+        let n = tail.len();
+        if n > 1 {
+            let (a, b) = tail.split_at_mut(n - 1);
+            backend.gen_tail_blocks(a);
+            backend.gen_ks_block(&mut b[0]);
+        } else if n == 1 {
+            backend.gen_ks_block(&mut tail[0]);
+        }
+    }
+}
+
 fn image_after_drop<T>(v: T) -> Vec<u8> {
     let mut slot = MaybeUninit::new(v);
     let n = core::mem::size_of::<T>();
@@ -912,7 +957,10 @@ impl<K: CoreInfo + 'static> Obj for CoreObj<K> {
         let mut out = vec![0xC3u8; n * K::BlockSize::USIZE];
         {
             let ob = as_blocks_mut::<K::BlockSize>(&mut out);
-            if multi {
+            if multi && n >= 3 && n % 2 == 1 {
+                // (odd multi-block requests go through a caller-written closure: single, batches, tail, single)
+                self.0.process_with_backend(MixKs { out: ob });
+            } else if multi {
                 self.0.write_keystream_blocks(ob);
             } else {
                 for b in ob.iter_mut() {
